@@ -29,7 +29,7 @@ def run_mgm(eng, p):
         from pydcop.algorithms.mgm2 import Mgm2Computation
         Mgm2Computation._compute_cost.cache_clear()
     lo, hi = p.get("range", (-BIG, BIG))
-    inst = Instance(eng, p["spec"], lo=lo, hi=hi, entry_kinds=p.get("kinds"), real=bool(p.get("real")))
+    inst = Instance(eng, p["spec"], lo=lo, hi=hi, entry_kinds=p.get("kinds"), real=p.get("real") or False)
     params = {"stop_cycle": p["stop"]}
     params.update(p.get("params", {}))
     cg, comps = build_computations(inst.dcop, algo, inst.mode, params)
